@@ -351,7 +351,11 @@ Qed.
 Theorem add_item_is_bip37_insert st item : bloom_wf st -> Z.of_nat (length item) < 2 ^ 32 ->
   MM.add_item st item =
   Ret (mkBloom (MS.insert (bf_bytes st) (bf_k st) (bf_tweak st) item) (bf_bit_count st) (bf_k st) (bf_tweak st)).
-Proof. intros Hwf Hitem. unfold MM.add_item. rewrite add_item_loop_spec by assumption. reflexivity. Qed.
+Proof.
+  intros Hwf Hitem. unfold MM.add_item. destruct Hwf as [Hbc Hpos].
+  destruct (bf_bit_count st =? 0) eqn:E0; [lia|].
+  rewrite add_item_loop_spec by (try split; assumption). reflexivity.
+Qed.
 
 (* the constructor gives a well-formed filter for 0 < size <= 36000 *)
 Lemma bloom_init_wf size k tweak : 0 < size <= 36000 ->
@@ -364,14 +368,14 @@ Proof.
   rewrite repeat_length. repeat split; lia.
 Qed.
 
-(* the empty filter: add_item raises ZeroDivisionError as soon as one hash function is requested *)
-Lemma bloom_empty_raises k tweak item : 0 < k -> Z.of_nat (length item) < 2 ^ 32 ->
-  exists st, bloom_init 0 k tweak = Ret st /\ MM.add_item st item = Raise E_OTHER.
+(* the empty filter: add_item returns at once; BIP37 insert on an empty vData changes nothing either *)
+Lemma set_nth_nil k f : MS.set_nth k f [] = [].
+Proof. destruct k; reflexivity. Qed.
+
+Lemma insert_nil k tweak item : MS.insert [] k tweak item = [].
 Proof.
-  intros Hk Hitem. eexists; split; [reflexivity|].
-  unfold MM.add_item, zrange. cbn [bf_k].
-  destruct (Z.to_nat k) as [|n] eqn:E; [lia|]. cbn [seq map add_item_loop].
-  rewrite murmur3_is_reference by exact Hitem. reflexivity.
+  unfold MS.insert. generalize (MS.hash_nums k) as is. induction is as [|i is IH]; [reflexivity|].
+  cbn [fold_left]. unfold MS.set_bit at 2. rewrite set_nth_nil. exact IH.
 Qed.
 
 (* ---- what insert does to the bits ---------------------------------------------------------------------------- *)
@@ -493,32 +497,15 @@ Proof.
   exists st''. auto.
 Qed.
 
-(* the statement over ALL sizes 0..36000, and where it fails *)
-Definition bloom_statement : Prop :=
-  forall size k tweak item, 0 <= size <= 36000 -> Z.of_nat (length item) < 2 ^ 32 ->
-  exists st st', bloom_init size k tweak = Ret st /\ MM.add_item st item = Ret st' /\
-                 bf_bytes st' = MS.insert (repeat x00 (Z.to_nat size)) k tweak item.
-
-(* exclusion: the empty filter with at least one hash function (ZeroDivisionError; Bitcoin Core: no-op) *)
-Definition empty_filter_with_hashes (size k : Z) : Prop := size = 0 /\ 0 < k.
-
-Lemma bloom_refuted : ~ bloom_statement.
-Proof.
-  intros H. destruct (H 0 1 0 [] ltac:(lia) ltac:(cbn; lia)) as (st & st' & E1 & E2 & _).
-  cbv in E1. injection E1 as <-. cbv in E2. discriminate.
-Qed.
-
-Lemma bloom_partial size k tweak item : 0 <= size <= 36000 -> Z.of_nat (length item) < 2 ^ 32 ->
-  ~ empty_filter_with_hashes size k ->
+(* the statement over ALL sizes 0..36000 (the empty filter included), every hash count, every tweak *)
+Theorem bloom_statement_holds size k tweak item : 0 <= size <= 36000 -> Z.of_nat (length item) < 2 ^ 32 ->
   exists st st', bloom_init size k tweak = Ret st /\ MM.add_item st item = Ret st' /\
                  bf_bytes st' = MS.insert (repeat x00 (Z.to_nat size)) k tweak item.
 Proof.
-  intros Hs Hitem Hex.
+  intros Hs Hitem.
   destruct (Z.eq_dec size 0) as [->|Hnz].
-  - assert (Hk : k <= 0) by (unfold empty_filter_with_hashes in Hex; lia).
-    eexists. eexists. split; [reflexivity|].
-    unfold MM.add_item, zrange, MS.insert, MS.hash_nums. cbn [bf_k].
-    replace (Z.to_nat k) with 0%nat by lia. cbn. split; reflexivity.
+  - eexists. eexists. split; [reflexivity|]. split; [reflexivity|].
+    cbn [bf_bytes Z.to_nat repeat]. now rewrite insert_nil.
   - destruct (bloom_init_wf size k tweak ltac:(lia)) as (st & E & Hwf & Hb & Hk & Ht).
     destruct (add_item_wf st item Hwf Hitem) as (st' & E' & _ & Hb' & _).
     exists st, st'. rewrite Hb', Hb, Hk, Ht. auto.
